@@ -428,6 +428,8 @@ pub struct LongFamily {
     /// squares the wandering pieces may move to (keeps the wander graph small: the way home is
     /// found by breadth-first search over it)
     pub region: &'static [&'static str],
+    /// largest gap of the thorough tier (the greedy wander runs out of unseen positions beyond it)
+    pub gmax_thorough: usize,
 }
 
 pub const LONG_FAMILIES: &[LongFamily] = &[
@@ -436,18 +438,21 @@ pub const LONG_FAMILIES: &[LongFamily] = &[
         start: "4k3/8/8/8/8/8/8/R3K3 w - - 0 1",
         movers: &["a1", "e1", "e8"],
         region: &["a1", "a2", "a3", "a4", "a5", "a6", "b1", "b2", "b3", "b4", "b5", "b6", "c1", "c2", "c3", "c4", "c5", "c6", "e1", "f1", "e2", "f2", "g1", "g2", "e8", "f8", "e7", "f7", "g8", "g7"],
+        gmax_thorough: 400,
     },
     LongFamily {
         name: "start position, the four knights wander (castling rights stay)",
         start: "startpos",
         movers: &["b1", "g1", "b8", "g8"],
         region: &["b1", "a3", "c3", "g1", "f3", "h3", "b8", "a6", "c6", "g8", "f6", "h6", "d5", "e5", "d4", "e4", "b5", "g5", "b4", "g4"],
+        gmax_thorough: 240,
     },
     LongFamily {
         name: "queen ending, queens and kings wander",
         start: "6k1/5ppp/8/8/8/8/1q3PPP/3Q2K1 w - - 0 1",
         movers: &["d1", "g1", "b2", "g8"],
         region: &["d1", "c1", "b1", "e1", "f1", "g1", "h1", "b2", "a2", "c2", "a1", "a3", "b3", "c3", "b4", "g8", "f8", "h8", "d2", "e2", "d3"],
+        gmax_thorough: 400,
     },
 ];
 
@@ -655,12 +660,12 @@ pub fn run(tier: &str, seed: u64, out: &str) {
         );
     }
     // ---- long games: every gap length
-    let gmax: usize = if thorough { 400 } else { 130 };
     let mut long_parts = Vec::new();
     for f in LONG_FAMILIES {
         if rep.saturated() {
             break;
         }
+        let gmax: usize = if thorough { f.gmax_thorough } else { 130 };
         DEEP_DEPTH.store(if f.start == "startpos" { 3 } else { 4 } + thorough as u64, Ordering::Relaxed);
         let mut cases: Vec<(usize, bool)> = Vec::new();
         for g in 0..=gmax {
@@ -688,7 +693,7 @@ pub fn run(tier: &str, seed: u64, out: &str) {
             eprintln!("MACHINERY ERROR: C09 long games {:?}: only {} of {} histories could be built", f.name, n_built, cases.len());
             std::process::exit(2);
         }
-        long_parts.push(J::obj().set("family", f.name).set("start", f.start).set("gap_lengths", format!("every g in 0..={}", gmax)).set("shapes", 2u64).set("histories_built", n_built).set("longest_history_plies", longest).set("third_occurrence_candidates", draws));
+        long_parts.push(J::obj().set("family", f.name).set("start", f.start).set("gap_lengths", format!("every g in 0..={}", gmax)).set("shapes", 2u64).set("histories_built", n_built).set("histories_that_could_not_be_built", cases.len() - n_built).set("longest_history_plies", longest).set("third_occurrence_candidates", draws));
     }
     let h = st.histories.load(Ordering::Relaxed);
     let cov = J::obj()
